@@ -65,3 +65,19 @@ CHECKS["C04"] = dict(
     design_ref="DESIGN.md 4 C04",
     assumptions=["reference geometry is correct"],
 )
+
+CHECKS["C05"] = dict(
+    title="Grids: congruence and generator descriptions agree and operations are exact",
+    quick=T([("grid_prog", 1)], cases=120000, secs=45),
+    thorough=T([("grid_prog", 1)], cases=3000000, secs=600, flavour="san"),
+    rule="case = generated program over a pool of Grid objects (dim 0-3; congruences with moduli {0,1,2,3,4,6}, constant congruences, "
+         "generators with non-unit divisors, parameters, lines) with an exact lattice model (own Hermite reduction) carried beside each object; "
+         "all four descriptions, every query and every operator are compared with the model, plus membership of a window of (1/2)Z^n decided "
+         "from the library's congruences. Non-trivial: a mutator on a grid that is neither empty, universe nor a single point, and an object "
+         "that went through >= 2 status vectors.",
+    technique="property-based testing (generated operation sequences, exact lattice reference model)",
+    level_text="Generated-history exploration against an exact lattice model sharing no code with PPL.",
+    level_note="dim <= 3 (<= 5 after concatenation); lattice model trusted (self-checked by the window test).",
+    design_ref="DESIGN.md 4 C05",
+    assumptions=["reference lattice (ref/reflattice.hh) is correct"],
+)
